@@ -1,6 +1,7 @@
 package main
 
 import (
+	"go/token"
 	"fmt"
 	"sort"
 	"strings"
@@ -515,5 +516,116 @@ func (c *Ctx) ruleMutexFresh() {
 	}
 	if n == 0 {
 		rep.bad("R-LOCK", "package", "L7 store nodeConfig.mtx", "?", "no installation of a mutex found")
+	}
+}
+
+// ruleLockSymmetry (L8): lock() and unlock() decide alike.  The conditions
+// under which (*stack).lock reaches Mutex.Lock are the conditions under which
+// (*stack).unlock reaches Mutex.Unlock - the mutex is enabled and found,
+// nothing else (an option such as read-only tested on one side only makes the
+// other side unlock a mutex that was never locked, or leave one locked).
+func (c *Ctx) ruleLockSymmetry() {
+	rep := c.rep
+	conds := func(name, mcall string) (map[string]bool, *ssa.Function) {
+		fn := c.anchor("R-LOCK", name)
+		if fn == nil {
+			return nil, nil
+		}
+		out := map[string]bool{}
+		var site *ssa.BasicBlock
+		for _, b := range fn.Blocks {
+			for _, in := range b.Instrs {
+				if cc := callCommon(in); cc != nil {
+					if cal := cc.StaticCallee(); cal != nil && cal.String() == mcall {
+						site = b
+					}
+				}
+			}
+		}
+		if site == nil {
+			return nil, fn
+		}
+		for d := site.Idom(); d != nil; d = d.Idom() {
+			iff, ok := d.Instrs[len(d.Instrs)-1].(*ssa.If)
+			if !ok {
+				continue
+			}
+			// only tests that can bypass the mutex call
+			bypass := false
+			for _, sc := range d.Succs {
+				if !c.blockReaches(sc, site) {
+					bypass = true
+				}
+			}
+			if !bypass {
+				continue
+			}
+			v := iff.Cond
+			neg := ""
+			if no, ok := v.(*ssa.UnOp); ok && no.Op == token.NOT {
+				v = no.X
+				neg = "!"
+			}
+			_ = neg
+			switch x := v.(type) {
+			case *ssa.Call:
+				out[c.calleeName(&x.Call)] = true
+			case *ssa.Extract:
+				if call, ok := x.Tuple.(*ssa.Call); ok {
+					out[fmt.Sprintf("%s#%d", c.calleeName(&call.Call), x.Index)] = true
+				} else {
+					out["other"] = true
+				}
+			case *ssa.BinOp:
+				// a test combining calls: name its call operands
+				named := false
+				for _, o := range []ssa.Value{x.X, x.Y} {
+					if call, ok := o.(*ssa.Call); ok {
+						out[c.calleeName(&call.Call)] = true
+						named = true
+					}
+				}
+				if !named {
+					out["other:"+x.Op.String()] = true
+				}
+			case *ssa.Phi:
+				// short-circuit && / ||: the calls feeding the phi
+				for _, e := range x.Edges {
+					if call, ok := e.(*ssa.Call); ok {
+						out[c.calleeName(&call.Call)] = true
+					}
+					if no, ok := e.(*ssa.UnOp); ok {
+						if call, ok := no.X.(*ssa.Call); ok {
+							out[c.calleeName(&call.Call)] = true
+						}
+					}
+				}
+			default:
+				out["other"] = true
+			}
+		}
+		return out, fn
+	}
+	lc, lf := conds("(*stack).lock", "(*sync.Mutex).Lock")
+	uc, _ := conds("(*stack).unlock", "(*sync.Mutex).Unlock")
+	if lf == nil {
+		return
+	}
+	keys := func(m map[string]bool) []string {
+		var ks []string
+		for k := range m {
+			ks = append(ks, k)
+		}
+		sort.Strings(ks)
+		return ks
+	}
+	if lc == nil || uc == nil {
+		rep.bad("R-LOCK", "(*stack).lock", "L8 lock and unlock decide alike", c.p.pos(lf.Pos()), "the Mutex.Lock / Mutex.Unlock call was not found")
+		return
+	}
+	if strings.Join(keys(lc), ",") == strings.Join(keys(uc), ",") {
+		rep.ok("R-LOCK", "(*stack).lock", "L8 lock and unlock decide alike", c.p.pos(lf.Pos()), "both reach the mutex under the same tests: "+strings.Join(keys(lc), ", "))
+	} else {
+		rep.bad("R-LOCK", "(*stack).lock", "L8 lock and unlock decide alike", c.p.pos(lf.Pos()), "lock() reaches Mutex.Lock under {"+strings.Join(keys(lc), ", ")+"} but unlock() reaches Mutex.Unlock under {"+strings.Join(keys(uc), ", ")+"}: one of them would act on a mutex the other left alone")
 	}
 }
